@@ -231,7 +231,15 @@ def P_of(t, i, j, S):
     return _pfun(float(t), i, j, S)
 
 
-def scn_model(newick, taxa_names, seqs, dates, tree_kind, clock, site, K, tip_states, use_amb, batch):
+def P_jc(t, i, j):
+    """oracle-side JC69 transition probability (closed form from the literature)"""
+    e = sexp(t * (-4.0 / 3.0)) if not isinstance(t, nf.RF) else nf.rexp(t * nf.const(-4) / 3)
+    if i == j:
+        return e * 3 / 4 + (nf.const(1) / 4 if isinstance(t, nf.RF) else 0.25)
+    return (nf.const(1) / 4 if isinstance(t, nf.RF) else 0.25) - e / 4
+
+
+def scn_model(newick, taxa_names, seqs, dates, tree_kind, clock, site, K, tip_states, use_amb, batch, subst_kind="stub"):
     """tree_kind: 'unrooted' | 'time'; clock: None|'strict'|'simple'; site: 'constant'|'weibull'|'invariant'"""
     batch = tuple(batch)
     T = len(taxa_names)
@@ -256,7 +264,7 @@ def scn_model(newick, taxa_names, seqs, dates, tree_kind, clock, site, K, tip_st
         # oracle view of the same inputs (own parser, documented index convention)
         nodes, root = trees.index_tree(trees.parse_newick(newick), taxa_names)
         children = {i: n["children"] for i, n in nodes.items()}
-        freqs = mk.real("pi", (S,), lo=0)
+        freqs = mk.real("pi", (S,), lo=0) if subst_kind == "stub" else mk.lift(torch.full((4,), 0.25, dtype=torch.float64))
         if tree_kind == "unrooted":
             bl = mk.real("bl", batch + (2 * T - 3,), lo=0)
             tm = UnRootedTreeModel("tree", tree, taxa, Parameter("bl", bl))
@@ -282,7 +290,11 @@ def scn_model(newick, taxa_names, seqs, dates, tree_kind, clock, site, K, tip_st
         elif clock == "simple":
             cr = mk.real("clock", batch + (2 * T - 2,), lo=0)
             cm = SimpleClockModel("clock", Parameter("clock", cr), tm)
-        subst = make_subst_stub(mk, freqs, S)
+        if subst_kind == "stub":
+            subst = make_subst_stub(mk, freqs, S)
+        else:
+            from torchtree.evolution.substitution_model.nucleotide import JC69
+            subst = JC69("jc")
         model = TreeLikelihoodModel("like", sp, tm, subst, sm, cm, use_ambiguities=use_amb, use_tip_states=tip_states)
         res = model()
         # ---- oracle
@@ -322,7 +334,8 @@ def scn_model(newick, taxa_names, seqs, dates, tree_kind, clock, site, K, tip_st
             for col in range(ncol):
                 bf = marginal.site_likelihood(
                     children, root, S, KK,
-                    P=lambda c, k, i, j: P_of(length(c) * el(site_rates, (k,)), i, j, S),
+                    P=(lambda c, k, i, j: P_of(length(c) * el(site_rates, (k,)), i, j, S)) if subst_kind == "stub" else
+                      (lambda c, k, i, j: P_jc(length(c) * el(site_rates, (k,)), i, j)),
                     pi=lambda i: el(freqs, (i,)), w=lambda k: el(site_probs, (k,)),
                     tip=lambda leaf, j: tipvec(leaf, col)[j])
                 tot = tot + slog(bf)
@@ -619,6 +632,12 @@ def obligations(tier, seed):
                     newick, "".join(taxa_names), tree_kind, clock, site, K, tip_states, use_amb, batch),
                     "scn_model", (newick, taxa_names, seqs, dates, tree_kind, clock, site, K, tip_states, use_amb, batch),
                     "TreeLikelihoodModel pipeline ≡ marginal sum", fns={"P": lambda t, i, j: _pfun(t, i, j, 4)})
+    add("C01.model.JC69[((A,B),C);,unrooted,weibull]", "scn_model",
+        ("((A,B),C);", ["C", "A", "B"], ["ACR", "CGN", "GT-"], [0.0, 0.0, 0.0], "unrooted", None, "weibull", 2, False, True, (), "JC69"),
+        "TreeLikelihoodModel pipeline with the real JC69 model ≡ marginal sum")
+    add("C01.model.JC69[((A,B),(C,D));,time,strict,invariant]", "scn_model",
+        ("((A,B),(C,D));", ["A", "B", "C", "D"], ["AC", "CG", "GT", "TN"], [0.0, 1.0, 0.0, 2.0], "time", "strict", "invariant", 2, False, True, (2,), "JC69"),
+        "TreeLikelihoodModel pipeline with the real JC69 model ≡ marginal sum")
     for T in (3, 4, 5, 6):
         obs.append(ob_postorder(T, tier, seed))
     obs.append(ob_tips())
